@@ -1008,6 +1008,10 @@ def rule_MF(run: Run) -> RuleResult:
                 continue
             at = dict(Frame.atoms(p.conds))
             ats = [a_.replace(B2_, B_) for a_ in bool_atoms(p.ret)]
+            if isinstance(p.ret, Const) and p.ret.v is True and (at.get(f"cmp:Is(self,{oth})") is True or at.get(f"cmp:Is({oth},self)") is True):
+                continue        # the very same object: an instance of its class with the same recorded options
+            if "NotImplemented" in p.ret.key() and any(k_.startswith(f"call:isinstance({oth},") and v_ is False for k_, v_ in at.items()):
+                continue        # not an instance of this class: left to the other operand, which (for a foreign object) says not equal
             if isinstance(p.ret, Const):
                 val = {(True, True): bool(p.ret.v)} if at.get(A_) is True and (at.get(B_) is True or at.get(B2_) is True) else None
                 good = (p.ret.v is False and (at.get(A_) is False or at.get(B_) is False or at.get(B2_) is False)) or (p.ret.v is True and val is not None)
@@ -1139,8 +1143,13 @@ def rule_PL(run: Run) -> RuleResult:
                 # the pickled state is the instance dictionary with every lock attribute replaced by something that is not a lock
                 for p in analyse_function(Ctx(repo), c.module, gs, cls=c):
                     k = p.ret.key() if p.status == "ret" and p.ret is not None else ""
-                    if not (k.startswith("dict(") and "attr:__dict__(self)" in k and all(f"item(Const('{a}')," in k and k.index("attr:__dict__(self)") < k.index(f"item(Const('{a}'),") for a in locks)
-                            and "Lock" not in k.split("attr:__dict__(self)", 1)[1]):
+                    replaced = (k.startswith("dict(") and "attr:__dict__(self)" in k and all(f"item(Const('{a}')," in k and k.index("attr:__dict__(self)") < k.index(f"item(Const('{a}'),") for a in locks)
+                                and "Lock" not in k.split("attr:__dict__(self)", 1)[1])
+                    # … or the instance dictionary copied, with every lock entry taken out of the copy (state.pop('_lock', None) / del state['_lock'])
+                    copied = "attr:__dict__(self)" in k and k != "attr:__dict__(self)"
+                    dropped = all(any((e.kind == "call" and e.text == "pop" and e.args and e.args[0].key() == Const(a).key() and e.target is not None and e.target.key() != "attr:__dict__(self)")
+                                      or (e.kind == "delete" and len(e.args) == 2 and e.args[1].key() == Const(a).key() and e.args[0].key() != "attr:__dict__(self)") for e in p.events) for a in locks)
+                    if not (replaced or (copied and dropped)):
                         ok_g = False
             ok_s = ss is not None
             if ok_s:
@@ -1433,6 +1442,58 @@ def _mutated_defaults(fn) -> List[tuple]:
     return out
 
 
+_ADDERS = {"add", "append", "appendleft", "insert", "update", "setdefault", "extend", "__setitem__"}
+_REMOVERS = {"discard", "remove", "pop", "popleft", "popitem", "clear", "__delitem__"}
+
+
+def _thread_local_is_scoped(m, name: str) -> str:
+    """Every addition to the containers hanging off the thread-local is followed at once by a ``try … finally`` that takes it
+    out again (a marker that lives exactly as long as the operation).  Returns a description, or '' when that is not so."""
+    funcs = [f for f in ast.walk(m.tree) if isinstance(f, (ast.FunctionDef, ast.AsyncFunctionDef))]
+    helpers = {f.name for f in funcs if any(isinstance(x, ast.Name) and x.id == name for x in ast.walk(f)) and any(isinstance(r, ast.Return) and r.value is not None for r in ast.walk(f))}
+    sites = []
+    for f in funcs:
+        holders = set()
+        for st in ast.walk(f):
+            if isinstance(st, (ast.Assign, ast.AnnAssign)) and getattr(st, "value", None) is not None:
+                v = st.value
+                from_tl = any(isinstance(x, ast.Name) and x.id == name for x in ast.walk(v)) or (
+                    isinstance(v, ast.Call) and isinstance(v.func, ast.Name) and v.func.id in helpers and f.name not in helpers)
+                if from_tl:
+                    for t in (st.targets if isinstance(st, ast.Assign) else [st.target]):
+                        if isinstance(t, ast.Name):
+                            holders.add(t.id)
+
+        def on_holder(e):
+            return (isinstance(e, ast.Name) and e.id in holders) or (isinstance(e, ast.Attribute) and isinstance(e.value, ast.Name) and e.value.id == name) or \
+                (isinstance(e, ast.Call) and isinstance(e.func, ast.Name) and e.func.id in helpers)
+        for parent in ast.walk(f):
+            for fld in ("body", "orelse", "finalbody"):
+                body = getattr(parent, fld, None)
+                if not isinstance(body, list):
+                    continue
+                for i, st in enumerate(body):
+                    call = st.value if isinstance(st, ast.Expr) and isinstance(st.value, ast.Call) else None
+                    adds = None
+                    if call is not None and isinstance(call.func, ast.Attribute) and call.func.attr in _ADDERS and on_holder(call.func.value):
+                        adds = ast.unparse(call.func.value)
+                    if isinstance(st, (ast.Assign, ast.AugAssign)):
+                        for t in (st.targets if isinstance(st, ast.Assign) else [st.target]):
+                            if isinstance(t, ast.Subscript) and on_holder(t.value):
+                                adds = ast.unparse(t.value)
+                    if adds is None:
+                        continue
+                    nxt = body[i + 1] if i + 1 < len(body) else None
+                    undone = isinstance(nxt, ast.Try) and any(
+                        (isinstance(x, ast.Call) and isinstance(x.func, ast.Attribute) and x.func.attr in _REMOVERS and ast.unparse(x.func.value) == adds)
+                        or (isinstance(x, ast.Delete) and any(isinstance(t, ast.Subscript) and ast.unparse(t.value) == adds for t in x.targets))
+                        for fb in nxt.finalbody for x in ast.walk(fb))
+                    sites.append((f.name, st.lineno, undone))
+    if sites and all(u for _, _, u in sites):
+        return ", ".join(f"{fn_} line {ln_}" for fn_, ln_, _ in sites)
+    return ""
+
+
 def rule_GS(run: Run) -> RuleResult:
     """No hidden module-level mutable state: outcomes depend on options only."""
     res = RuleResult("R-GS")
@@ -1494,6 +1555,11 @@ def rule_GS(run: Run) -> RuleResult:
             if v[0] == "var" and isinstance(v[1], ast.Call) and ast.unparse(v[1].func).split(".")[-1] in ("local", "ContextVar") \
                     and ("threading" in ast.unparse(v[1].func) or "contextvars" in ast.unparse(v[1].func) or ast.unparse(v[1].func) in ("local", "ContextVar")):
                 n += 1
+                scoped = _thread_local_is_scoped(m, name)
+                if scoped:
+                    res.add(f"{m.name}.{name}:thread-local module state", True, m.relpath, getattr(v[1], "lineno", 1),
+                            f"{name}: every entry put there is taken out again in a `finally` right after ({scoped}): nothing survives the operation that wrote it", nec)
+                    continue
                 res.add(f"{m.name}.{name}:thread-local module state", False, m.relpath, getattr(v[1], "lineno", 1),
                         f"{name} = {ast.unparse(v[1])[:40]}: per-thread state that survives the operation that wrote it (an exception between writing and "
                         "clearing leaves it behind)", nec)
@@ -1878,6 +1944,36 @@ def rule_TV(run: Run) -> RuleResult:
     return res
 
 
+def _always_handed_named_function(m, fn, param: str) -> bool:
+    import builtins as _b
+    ps = [a_.arg for a_ in fn.args.posonlyargs + fn.args.args]
+    if param not in ps:
+        return False
+    idx = ps.index(param)
+    defs = {d.name for d in m.tree.body if isinstance(d, (ast.FunctionDef, ast.ClassDef))}
+    stored = {z.id for z in ast.walk(m.tree) if isinstance(z, ast.Name) and isinstance(z.ctx, ast.Store)}
+    n_ = 0
+    for c in ast.walk(m.tree):
+        if isinstance(c, ast.Name) and c.id == fn.name and isinstance(c.ctx, ast.Load):
+            n_ += 1
+    calls = [c for c in ast.walk(m.tree) if isinstance(c, ast.Call) and isinstance(c.func, ast.Name) and c.func.id == fn.name]
+    if not calls or len(calls) != n_:
+        return False            # also mentioned other than by a direct call
+    for c in calls:
+        if any(isinstance(a_, ast.Starred) for a_ in c.args):
+            return False
+        a = c.args[idx] if idx < len(c.args) else next((k.value for k in c.keywords if k.arg == param), None)
+        if a is None:
+            return False
+        if isinstance(a, ast.Attribute) and isinstance(a.value, ast.Name) and a.value.id == "builtins" and a.value.id not in stored \
+                and callable(getattr(_b, a.attr, None)) and hasattr(getattr(_b, a.attr), "__name__"):
+            continue
+        if isinstance(a, ast.Name) and a.id not in stored and (a.id in defs or (callable(getattr(_b, a.id, None)) and hasattr(getattr(_b, a.id), "__name__"))):
+            continue
+        return False
+    return True
+
+
 def rule_OH(run: Run) -> RuleResult:
     """Values a user supplies as dispatch aliases are only hashable: nothing may put them in order."""
     res = RuleResult("R-OH")
@@ -1964,6 +2060,47 @@ def rule_OH(run: Run) -> RuleResult:
             # a function defined in this very function (its name is set right there)
             local_defs = {d.name for d in ast.walk(hfn) if isinstance(d, ast.FunctionDef) and d is not hfn}
             if is_class_elem or base in local_defs:
+                continue
+            # a key of a mapping keyed by classes (``for request, handler in self.handlers.items()`` with handlers: Mapping[Type[Request], …])
+            key_of_class_map = False
+            if ci is not None:
+                for y in ast.walk(hfn):
+                    if isinstance(y, (ast.comprehension, ast.For)) and isinstance(y.iter, ast.Call) and isinstance(y.iter.func, ast.Attribute) and y.iter.func.attr in ("items", "keys") \
+                            and isinstance(y.iter.func.value, ast.Attribute) and isinstance(y.iter.func.value.value, ast.Name) and y.iter.func.value.value.id == sn:
+                        tgt0 = y.target.elts[0] if isinstance(y.target, ast.Tuple) and y.target.elts else y.target
+                        if isinstance(tgt0, ast.Name) and tgt0.id == base:
+                            for kc in ci.mro():
+                                ann = kc.annotations.get(y.iter.func.value.attr)
+                                if ann is not None and isinstance(ann, ast.Subscript):
+                                    sl = ann.slice.elts[0] if isinstance(ann.slice, ast.Tuple) and ann.slice.elts else ann.slice
+                                    if ast.unparse(sl).split("[")[0].split(".")[-1] in ("Type", "type"):
+                                        key_of_class_map = True
+            # a value that the enclosing test found to be a class: ``if isinstance(x, type): … x.__name__``
+            pm2_ = astu.parent_map(hfn)
+            cur2_, is_class_here = x, False
+            while id(cur2_) in pm2_:
+                up2_ = pm2_[id(cur2_)]
+                if isinstance(up2_, (ast.If, ast.IfExp)):
+                    in_body = (cur2_ is up2_.body) if isinstance(up2_, ast.IfExp) else any(cur2_ is b_ for b_ in up2_.body)
+                    t_ = up2_.test
+                    if in_body and isinstance(t_, ast.Call) and isinstance(t_.func, ast.Name) and t_.func.id == "isinstance" and len(t_.args) == 2 \
+                            and ast.unparse(t_.args[0]) == base and ast.unparse(t_.args[1]) in ("type", "(type,)"):
+                        is_class_here = True
+                cur2_ = up2_
+            if key_of_class_map or is_class_here:
+                continue
+            # a local bound once, to the class of something: ``request_type = type(request)``
+            binds = [y for y in ast.walk(hfn) if isinstance(y, (ast.Assign, ast.AnnAssign, ast.AugAssign, ast.NamedExpr, ast.For, ast.comprehension, ast.withitem))
+                     for t_ in ([y.target] if hasattr(y, "target") else (y.targets if hasattr(y, "targets") else [y.optional_vars] if getattr(y, "optional_vars", None) is not None else []))
+                     for z in ast.walk(t_) if isinstance(z, ast.Name) and z.id == base]
+            if len(binds) == 1 and isinstance(binds[0], (ast.Assign, ast.AnnAssign)) and binds[0].value is not None and isinstance(x.value, ast.Name) \
+                    and base not in {a_.arg for a_ in hfn.args.posonlyargs + hfn.args.args + hfn.args.kwonlyargs}:
+                v_ = ast.unparse(binds[0].value)
+                if (v_.startswith("type(") and v_.endswith(")") and isinstance(binds[0].value, ast.Call) and len(binds[0].value.args) == 1) or v_.endswith(".__class__"):
+                    continue
+            # a parameter of a private module-level helper that every call in the module hands a named function (a builtin, a function or
+            # class defined in the module): those carry their names
+            if cls_node is None and hfn.name.startswith("_") and isinstance(x.value, ast.Name) and _always_handed_named_function(m, hfn, base):
                 continue
             # inside try/except AttributeError
             pm_ = astu.parent_map(hfn)
